@@ -752,6 +752,12 @@ func (ev *Env) call(x *ECall) SVal {
 }
 
 func (ev *Env) coerce(v SVal, tyName string, fn string) SVal {
+	if strings.HasPrefix(tyName, "*") {
+		if _, ok := v.(SPtr); ok {
+			return v // pointer parameters of (inlined) spec predicates
+		}
+		sfail("%s: argument must be a pointer to %s", fn, tyName[1:])
+	}
 	ty := tyFromName(tyName)
 	if ty == nil {
 		sfail("%s: unknown parameter type %q", fn, tyName)
